@@ -63,7 +63,7 @@ def describe(rep):
         'with SYMBOLIC integer control orders of 2..4 harness convergence controllers (np.argsort forks over the orderings): on every path each class '
         'is instantiated once, the execution order is ascending in control_order (SMT validity), user parameters override defaults; coverage certified. '
         '(b), (d) the rejection clauses and the frozen/read-only attribute clauses are a finite table of single-fault perturbations of a valid '
-        'description; they are executed concretely as side conditions -- no solver decides them.'
+        'description; they are executed concretely as side conditions -- no solver decides them. List-valued transfer entries (space_transfer_class, space_transfer_params, base_transfer_params) are read as: entry l belongs to level l, and the transfer attaching level l to the finer level l-1 is built from the l-th entries (recording transfer classes; ENUMERATED shapes, 2..4 levels).'
     )
     rep.rule = 'case = CrossHair condition / path of the controller constructor (an ordering of the symbolic control orders) / one single-fault perturbation'
     rep.assume('dictionary keys of the description are fixed strings (CrossHair times out on symbolic str keys)', 'attribute names in (b) are a fixed list')
@@ -71,7 +71,7 @@ def describe(rep):
 
 
 def tasks(tier, seed):
-    T = [('dict',), ('orders', 2), ('orders', 3), ('reject',), ('frozen',), ('levels',)]
+    T = [('dict',), ('orders', 2), ('orders', 3), ('reject',), ('frozen',), ('levels',), ('transfer_entries',)]
     if tier != 'quick':
         T.append(('orders', 4))
     return T
@@ -88,6 +88,8 @@ def run_task(rep, task):
         frozen_case(rep)
     elif task[0] == 'levels':
         levels_case(rep)
+    elif task[0] == 'transfer_entries':
+        transfer_entries_case(rep)
 
 
 def valid_desc(NL=1):
@@ -369,6 +371,78 @@ def levels_case(rep):
                 ok = ok and L.sweep.coll.num_nodes == pick(nn, i) and L.params.dt == pick(dts, i) and L.params.restol == pick(restol, i)
                 ok = ok and np.all(L.prob.lambdas == pick(lam, i)) and L.level_index == i
             rep.side(f'levels/NL{NL}/{"-".join(shape)}', ok, {'levels': len(Ls), 'expected': expect_levels})
+
+
+TRLOG = []
+
+
+class _RecTransfer(mesh_to_mesh):
+    """records which (fine level, coarse level) pair was connected with which class and parameters"""
+
+    def __init__(self, fine_prob, coarse_prob, params):
+        TRLOG.append((float(fine_prob.lambdas[0]), float(coarse_prob.lambdas[0]), type(self).__name__, dict(params)))
+        super().__init__(fine_prob, coarse_prob, {})
+
+
+class TrA(_RecTransfer):
+    pass
+
+
+class TrB(_RecTransfer):
+    pass
+
+
+class TrC(_RecTransfer):
+    pass
+
+
+class TrD(_RecTransfer):
+    pass
+
+
+def transfer_entries_case(rep):
+    """list-valued transfer entries: entry l of space_transfer_class / space_transfer_params / base_transfer_params belongs to level l, and the transfer
+    that attaches level l to the finer level l-1 is built from the l-th entries (last entry repeating); scalar entries are shared by all pairs"""
+    from pySDC.core.base_transfer import BaseTransfer
+
+    seen = []
+    orig = BaseTransfer.__init__
+
+    def rec_init(self, fine_level, coarse_level, base_transfer_params, space_transfer_class, space_transfer_params):
+        orig(self, fine_level, coarse_level, base_transfer_params, space_transfer_class, space_transfer_params)
+        seen.append((fine_level.level_index, coarse_level.level_index, bool(self.params.finter)))
+
+    BaseTransfer.__init__ = rec_init
+    try:
+        classes = [TrA, TrB, TrC, TrD]
+        for NL in (2, 3, 4):
+            for shape in (('full', 'full', 'full'), ('scalar', 'full', 'short'), ('short', 'scalar', 'full'), ('full', 'short', 'scalar')):
+                def val(kind, vals):
+                    return vals[0] if kind == 'scalar' else (vals[: max(1, NL - 1)] if kind == 'short' else vals[:NL])
+
+                tcls = val(shape[0], classes)
+                tpar = val(shape[1], [{'tag': i} for i in range(4)])
+                bpar = val(shape[2], [{'finter': bool(i % 2)} for i in range(4)])
+                lam = [np.array([-1.0]), np.array([-2.0]), np.array([-3.0]), np.array([-4.0])][:NL]
+                d = dict(problem_class=testequation0d, problem_params={'lambdas': lam, 'u0': 1.0}, sweeper_class=generic_implicit,
+                         sweeper_params={'num_nodes': [5, 4, 3, 2][:NL], 'quad_type': 'RADAU-RIGHT'}, level_params={'dt': 0.1, 'restol': 1e-8}, step_params={'maxiter': 3},
+                         space_transfer_class=tcls, space_transfer_params=tpar, base_transfer_params=bpar)
+                TRLOG.clear()
+                seen.clear()
+                name = f'transfer-entries/NL{NL}/{"-".join(shape)}'
+                try:
+                    controller_nonMPI(1, dict(CP), d)
+                except Exception as e:
+                    rep.side(name, False, f'{type(e).__name__}: {e}')
+                    continue
+                pick = lambda v, i: v[min(i, len(v) - 1)] if isinstance(v, list) else v
+                exp_space = [(-float(l), -float(l + 1), pick(tcls, l).__name__, pick(tpar, l)) for l in range(1, NL)]
+                exp_base = [(l - 1, l, bool(pick(bpar, l)['finter'])) for l in range(1, NL)]
+                rep.side(name, TRLOG == exp_space and seen == exp_base,
+                         {'space transfers built (fine lambda, coarse lambda, class, params)': [list(map(str, x)) for x in TRLOG], 'expected': [list(map(str, x)) for x in exp_space],
+                          'base transfers (fine, coarse, finter)': [list(x) for x in seen], 'expected base': [list(x) for x in exp_base]})
+    finally:
+        BaseTransfer.__init__ = orig
 
 
 def replay(path):
